@@ -68,7 +68,7 @@ def run(chk):
   # 2a. TLC searches the size checks *as coded* for a violation of Conforms; the counter-example is replayed
   typedtree.mirror_search(chk, 'C03_mirror.cfg', 'list', False, hits, models['list'])
   # 2b. simulated behaviours; the second pass stays away from the two mechanisms with open findings
-  n1, d1, n2, d2 = (90, 15, 90, 30) if not thorough else (800, 25, 800, 40)
+  n1, d1, n2, d2 = (90, 15, 90, 30) if not thorough else (600, 25, 600, 40)
   for kind, partial, tag in KINDS:
     # (list2 exists for the extended-slice actions only: more, longer walks over fewer action families)
     add(typedtree.replay_simulated(chk, kind, partial, f'C03_sim_{tag}.cfg', n1 * (2 if kind == 'list2' else 1),
